@@ -148,6 +148,9 @@ def gen_curve_cfg(rng, allow_recorded=True, min_points=None, big=False):
         cfg["tilt"] = rng.choice([2e-5, -1e-5])
     if rng.random() < 0.15:
         cfg["n_retract"] = max(30, n // 2)
+    if rng.random() < 0.2:
+        # the file brings its own (recorded) tip position column
+        cfg["innate_tip"] = True
     return cfg
 
 
